@@ -86,12 +86,12 @@ def showOutcome (o : Outcome) : String :=
   let rs := if o.sent.isEmpty then "-" else ",".intercalate (o.sent.map showRep)
   s!"by={showDecider o.by_} n={replies o} r={rs} disc={if o.disconnect then 1 else 0}"
 
-def stepLine (rows : Mgr â†’ Row) (exts : List Row) (line : String) : List Row Ã— String :=
+def stepLine (exts : List Row) (line : String) : List Row Ã— String :=
   match words line with
   | ["reset", l] =>
     if l = "-" then ([], "ok") else
     match (l.splitOn ",").mapM mgrOfName with
-    | some ms => (ms.map rows, "ok")
+    | some ms => (ms.map rowOf, "ok")
     | none => (exts, "bad-op")
   | ["iq", e, t, f, i, k] =>
     match typeOf t, fromOf f, idOf i, kidsOf k with
@@ -102,6 +102,4 @@ def stepLine (rows : Mgr â†’ Row) (exts : List Row) (line : String) : List Row Ã
     | _, _, _, _ => (exts, "bad-op")
   | _ => (exts, "bad-op")
 
-/-- `qxdriver_c08` models today's code; `qxdriver_c08 fixed` models /verif/fixes/C08-*.diff applied -/
-def main (args : List String) : IO Unit :=
-  run ([] : List Row) (stepLine (if args = ["fixed"] then rowOfFixed else rowOf))
+def main : IO Unit := run ([] : List Row) stepLine
